@@ -25,3 +25,18 @@ Theorem C09_prefix_as_without :
     run pf md lower false specs st pre = Ok st'.
 Proof. exact prefix_as_without_require_order. Qed.
 Print Assumptions C09_prefix_as_without.
+
+(* What the user sees: Parse on the whole argument vector returns what Parse on the part before the
+   stop point returns - same warnings, same error if any, same option store and selected command -
+   with the stop token and everything behind it appended verbatim and in order to remaining. *)
+Theorem C09_parse_result :
+  forall pf md lower specs ro root st0 pre s tail st sh,
+    run pf md lower ro specs (init root st0) pre = Ok st ->
+    at_head pf md lower specs st s sh ->
+    (ro && ni_reqorder (n_info (cur sh)))%bool = true ->
+    stops_order md sh s ->
+    parse pf md lower ro specs root st0 (pre ++ s :: tail) =
+      extend (s :: tail) (parse pf md lower ro specs root st0 pre)
+             (add_text (set_ph (add_text sh [s]) PTail) tail).
+Proof. exact require_order_parse. Qed.
+Print Assumptions C09_parse_result.
